@@ -150,8 +150,14 @@ fn damaged_strategy(tier: Tier) -> BoxedStrategy<DamagedCase> {
     let mut p = GenParams::ledger();
     p.max_rows = tier.pick(10, 24);
     p.usd_norate = false;
-    (ledger_strategy(p, 1), proptest::collection::vec(any::<u16>(), 24), 0usize..=5, prop_oneof![6 => Just(0usize), 3 => 1usize..4, 1 => 4usize..10], (any::<bool>(), any::<bool>(), any::<bool>(), any::<u8>(), any::<bool>()), prop_oneof![6 => Just(vec![]), 2 => Just(vec!["BAR:0.5:0".to_string()]), 1 => Just(vec!["ZZZ:999999999999.9999999999:999999999999.9999999999".to_string()]), 1 => proptest::collection::vec(prop_oneof![Just("FOO:10".to_string()), Just(":1:1".to_string()), Just("FOO:x:1".to_string()), Just("FOO:-1:5".to_string()), Just("BAR:1:1".to_string()), Just("foo:10:100".to_string()), Just("Foo:1:1".to_string()), Just("xyz.to:5:5".to_string()), Just(" bar :2:2".to_string()), Just("FOO:1:-5".to_string()), Just("FOO:1:x".to_string()), Just("FOO:1e3:1".to_string()), Just("FOO::".to_string()), Just("FOO:1:1:1".to_string()), Just("  :1:1".to_string()), Just("FOO:1:-0.0000000001".to_string())], 1..3)])
+    // a third of the bases have their rows crowd around year ends (trades late in December that settle in January, ...)
+    let mut edge = p.clone();
+    edge.year_edge = true;
+    (prop_oneof![2 => ledger_strategy(p, 1), 1 => ledger_strategy(edge, 1)], proptest::collection::vec(any::<u16>(), 24), 0usize..=5, prop_oneof![6 => Just(0usize), 3 => 1usize..4, 1 => 4usize..10], (any::<bool>(), any::<bool>(), any::<bool>(), any::<u8>(), any::<bool>()), prop_oneof![6 => Just(vec![]), 2 => Just(vec!["BAR:0.5:0".to_string()]), 1 => Just(vec!["ZZZ:999999999999.9999999999:999999999999.9999999999".to_string()]), 1 => proptest::collection::vec(prop_oneof![Just("FOO:10".to_string()), Just(":1:1".to_string()), Just("FOO:x:1".to_string()), Just("FOO:-1:5".to_string()), Just("BAR:1:1".to_string()), Just("foo:10:100".to_string()), Just("Foo:1:1".to_string()), Just("xyz.to:5:5".to_string()), Just(" bar :2:2".to_string()), Just("FOO:1:-5".to_string()), Just("FOO:1:x".to_string()), Just("FOO:1e3:1".to_string()), Just("FOO::".to_string()), Just("FOO:1:1:1".to_string()), Just("  :1:1".to_string()), Just("FOO:1:-0.0000000001".to_string())], 1..3)])
         .prop_map(|(base, seeds, nmut, fmt_ix, (full, costs, csv_out, summ, annual), sb)| {
+            // a quarter of the bases are moved in time so that some sale trades on Dec 31 and settles in January
+            let mut base = base;
+            if seeds[1] % 4 == 0 { if let Some(r) = base.rows.iter().find(|r| r.act == crate::model::Act::Sell && r.sd > r.td).cloned() { let delta = crate::gen::ymd(r.td.year(), 12, 31) - r.td; for x in base.rows.iter_mut() { x.td = x.td + delta; x.sd = x.sd + delta; } } }
             let (bytes, mutations, date_fmt) = damage(&base, &seeds, nmut, fmt_ix);
             let mut files = vec![("f0.csv".to_string(), bytes)];
             if seeds[0] % 5 == 0 { files.push(("f1.csv".to_string(), crate::gen::to_csv(&base.rows[..base.rows.len().min(2)]).into_bytes())); }
